@@ -26,6 +26,11 @@ CLAIMS = {
         "Exploration: ~1.9k (quick) / ~38k (thorough) oriented cases over all 21 oriented models plus ~800 isotropy cases over the un-oriented models; every clause of the statement is an executable predicate.",
         "Trusts numpy matrix algebra and the model's particle-frame functions; cutoff fixed at 0; un-oriented models that define their own Iqxy (line, micromagnetic_FF_3D: documented full-control mechanism) are outside the |q|-only clause; empty jitter meshes are left to C01.",
         "DESIGN.md section 3 C05"),
+    "C13": (
+        "Hypothesis-generated parameter sets (model random() by drawn seed, defaults, coincidence-breaking perturbations) with metamorphic relations of known effect: lambda^3 / lambda / mu^2 scaling by declared unit exponents",
+        "Exploration: every eligible shape:* model (42) x 40 (quick) / 800 (thorough) cases; relations on I, R_eff per mode, V_form, V_shell; three wrong unit labels repaired, five model-level deviations listed per (model, relation).",
+        "Tolerance 1e-6 relative (worst rounding amplification observed 4e-8); models reporting the placeholder volume 1.0 are not tested for volume scaling; listed models keep their mu^2, R_eff and volume relations enforced.",
+        "DESIGN.md section 3 C13"),
     "C14": (
         "Hypothesis-seeded parameter sets from each model's own random() generator; oracle = validity predicates over call_Fq/call_kernel outputs (inequality, q->0 limit, spherical equality, intensity identity, equivalent-volume identity, positivity)",
         "Exploration: 26 amplitude models x 60 (quick) / 1500 (thorough) generated parameter sets x modes x q; predicates are the statement's own clauses.",
